@@ -1300,4 +1300,44 @@ example : generateStreamH ⟨false, false, true, true⟩ .none false false 3 [nd
       = .ok [.msg ⟨sHi, [], ⟨true, false, [], 0, 0⟩⟩, .msg ⟨[], [], ⟨true, true, sStop, 5, 7⟩⟩] :=
   ⟨rfl, rfl, rfl, rfl⟩
 
+/-! ## `api.Client` and the length of the lines -/
+
+/-- **whatever the length, up to what the client's buffer holds**: if every line on the wire is
+    shorter than the scanner limit, the limit plays no role — `client_generate_equiv` /
+    `client_chat_equiv` (stated with `clientView`) apply to what `api.Client` does. -/
+theorem client_view_fits {α : Type} [Inhabited α] (limit : Nat) (fixed : Bool) (l : List (Item α × Nat))
+    (h : ∀ p ∈ l, p.2 < limit) : clientViewL limit fixed l = clientView (l.map (·.1)) := by
+  induction l with
+  | nil => rfl
+  | cons p rest ih =>
+    obtain ⟨it, n⟩ := p
+    have hn : ¬ limit ≤ n := by have := h (it, n) (by simp); simp at this; omega
+    have ih' := ih (fun q hq => h q (by simp [hq]))
+    cases it with
+    | msg m => simp [clientViewL, clientView, hn, ih']
+    | err e => simp [clientViewL, clientView, hn, ih']
+
+/-- **F17e as a theorem of the pinned client, and its repair**: at the first line of `limit` bytes or
+    more the client stops; the messages before it were delivered, that line and EVERYTHING after it
+    (a final done message included) are not; pinned: nil is returned (no final message, no error);
+    repaired (C17-F17e.patch): the scanner's error is returned. -/
+theorem client_long_line {α : Type} [Inhabited α] (limit : Nat) (fixed : Bool) (pre : List (α × Nat))
+    (hpre : ∀ p ∈ pre, p.2 < limit) (it : Item α) (n : Nat) (rest : List (Item α × Nat)) (hn : limit ≤ n) :
+    clientViewL limit fixed (pre.map (fun p => (Item.msg p.1, p.2)) ++ (it, n) :: rest)
+      = (pre.map (·.1), if fixed then some sTooLong else none) := by
+  induction pre with
+  | nil => simp [clientViewL, hn]
+  | cons p ps ih =>
+    have hp : ¬ limit ≤ p.2 := by have := hpre p (by simp); omega
+    have ih' := ih (fun q hq => hpre q (by simp [hq]))
+    simp [clientViewL, hp, ih']
+
+/-- witness: a 513093-byte reply line (a 513000-byte output) with the unchanged 512000-byte buffer -/
+theorem F17e_client_drops_long_reply :
+    clientViewL 512000 false [(Item.msg (default : GenMsg), 513093), (Item.msg (default : GenMsg), 120)] = ([], none)
+    ∧ clientViewL 512000 true [(Item.msg (default : GenMsg), 513093), (Item.msg (default : GenMsg), 120)]
+        = ([], some sTooLong)
+    ∧ clientViewL 512000 false [(Item.msg (default : GenMsg), 511999), (Item.msg (default : GenMsg), 120)]
+        = ([default, default], none) := ⟨rfl, rfl, rfl⟩
+
 end OllamaVerif.C17
